@@ -1002,9 +1002,8 @@ def fam_multi_custom(rng):
     return net
 
 
-# kinds drawn at random (all accepted by Vela); "if_npu" (NPU-supported operators inside the IF branches) is only
-# generated on request ("multi_subgraph:if_npu"): Vela never allocates the tensors of IF branch subgraphs and dies
-MULTI_KINDS = ["while", "while", "while_fm", "if", "call_once", "while_call_once", "if_call_once", "while2", "if_same"]
+# kinds drawn at random; "if_npu" (NPU-supported operators inside the IF branches) killed the compiler before 37530b3
+MULTI_KINDS = ["while", "while", "while_fm", "if", "call_once", "while_call_once", "if_call_once", "while2", "if_same", "if_npu"]
 
 
 def _ms_custom(net, rng, x, code):
